@@ -30,6 +30,12 @@
         serve_one; a stream without a method key is swallowed silently iff the mark was set, otherwise it is answered
         with an error stream -- which shifts every later response of that connection by one call.
 
+        g: the client writes a malformed stream (a record batch without a schema message) as its last act: pyarrow
+        raises an OSError that RpcServer.serve lets escape, so the per-connection thread leaves through its exception
+        path (transport closed without an answer, permit returned) -- a connection that ends abnormally must not cost
+        the others anything.  The client observes the end of the connection: <<"x", 0>>.
+   Entry point: the public serve_unix(server, path, threaded=True, max_connections=mx); mx is what the caller asked for.
+
    Service (per connection tag = 101 * c):  u -> tag*1000 + i;  producer: k-th output tag*1000 + k;
    exchange: running sum of the inputs (input of op number i is i); a rejected open answers <<"e", tag>>.
    SharedState = TRUE is the design error "one state for all connections" (stream state AND the stray mark in one
@@ -40,10 +46,10 @@ CONSTANTS Worlds,          \* set of [s |-> function conn -> sequence of ops, mx
                            \* for None (no semaphore), otherwise the number of permits
           SharedState      \* design error switch (FALSE = intended)
 
-VARIABLES script, mx, loop, acc, backlog, closed, cl, ip, pend, c2s, s2c, eof, h, ml, cur, mid, hs, flag, permits, serving,
-          sk, sa, obs
-vars == <<script, mx, loop, acc, backlog, closed, cl, ip, pend, c2s, s2c, eof, h, ml, cur, mid, hs, flag, permits, serving,
-          sk, sa, obs>>
+VARIABLES script, mx, loop, acc, backlog, closed, cl, ip, pend, c2s, s2c, eof, dead, h, ml, cur, mid, hs, flag, permits,
+          serving, sk, sa, obs
+vars == <<script, mx, loop, acc, backlog, closed, cl, ip, pend, c2s, s2c, eof, dead, h, ml, cur, mid, hs, flag, permits,
+          serving, sk, sa, obs>>
 
 Conns == DOMAIN script
 Tag(c) == 101 * c
@@ -55,6 +61,7 @@ Rq(i) == [t |-> "R", i |-> i]
 SP == [t |-> "SP", i |-> 0]
 SE == [t |-> "SE", i |-> 0]
 S0 == [t |-> "S0", i |-> 0]
+GB == [t |-> "G", i |-> 0]
 AfterReject(c, i) == i > 1 /\ Rejected(script[c][i - 1])
 
 InitWith(s, m) ==
@@ -62,6 +69,7 @@ InitWith(s, m) ==
         /\ loop = "start" /\ acc = 0 /\ backlog = <<>> /\ closed = FALSE
         /\ cl = [c \in DOMAIN s |-> "start"] /\ ip = [c \in DOMAIN s |-> 0] /\ pend = [c \in DOMAIN s |-> "n"]
         /\ c2s = [c \in DOMAIN s |-> <<>>] /\ s2c = [c \in DOMAIN s |-> <<>>] /\ eof = [c \in DOMAIN s |-> FALSE]
+        /\ dead = [c \in DOMAIN s |-> FALSE]
         /\ h = [c \in DOMAIN s |-> "none"] /\ ml = [c \in DOMAIN s |-> 0] /\ cur = [c \in DOMAIN s |-> 0]
         /\ mid = [c \in DOMAIN s |-> FALSE] /\ hs = [c \in DOMAIN s |-> FALSE]
         /\ flag = [x \in {0} \cup DOMAIN s |-> FALSE]
@@ -79,7 +87,7 @@ L == /\ CASE loop = "start" -> loop' = "accept" /\ UNCHANGED <<acc, backlog, h>>
           [] loop = "acq2" -> loop' = "accept" /\ h' = [h EXCEPT ![acc] = "start"] /\ UNCHANGED <<acc, backlog>>
           [] loop = "acqF" -> loop' = "done" /\ UNCHANGED <<acc, backlog, h>>
           [] OTHER -> FALSE
-     /\ UNCHANGED <<script, mx, closed, cl, ip, pend, c2s, s2c, eof, ml, cur, mid, hs, flag, permits, serving, sk, sa, obs>>
+     /\ UNCHANGED <<script, mx, closed, cl, ip, pend, c2s, s2c, eof, dead, ml, cur, mid, hs, flag, permits, serving, sk, sa, obs>>
 LEnabled == \/ loop \in {"start", "acq1", "acq2", "acqF"}
             \/ loop = "accept" /\ (closed \/ backlog # <<>>)
 
@@ -91,7 +99,8 @@ RECURSIVE CIssue(_, _)
 CIssue(c, st) ==
   IF st.i = Len(script[c]) THEN [st EXCEPT !.cl = "done", !.eof = TRUE]              \* close the transport
   ELSE LET i == st.i + 1  op == script[c][i] IN
-       IF Rejected(op) THEN [st EXCEPT !.i = i, !.q = Append(@, Rq(i)), !.cl = "opened"]
+       IF op = "g" THEN [st EXCEPT !.i = i, !.q = Append(@, GB), !.cl = "wait", !.pend = "g"]
+       ELSE IF Rejected(op) THEN [st EXCEPT !.i = i, !.q = Append(@, Rq(i)), !.cl = "opened"]
        ELSE IF AfterReject(c, i) /\ op \in {"t", "e", "c"}
        THEN LET q1 == Append(st.q, IF op = "c" THEN S0 ELSE SP) IN
             IF st.r # <<>>
@@ -105,10 +114,12 @@ CSet(c, st) == /\ c2s' = [c2s EXCEPT ![c] = st.q] /\ s2c' = [s2c EXCEPT ![c] = s
                /\ eof' = [eof EXCEPT ![c] = st.eof]
 C(c) ==
   /\ c \in Conns
-  /\ CASE cl[c] = "start" ->          \* connect(): the kernel queues the connection
+  /\ CASE cl[c] = "start" /\ loop # "start" ->      \* connect(): possible once serve_unix has bound the path; the kernel queues it
             /\ cl' = [cl EXCEPT ![c] = "connected"] /\ backlog' = Append(backlog, c)
             /\ UNCHANGED <<ip, pend, c2s, s2c, eof, obs>>
        [] cl[c] \in {"connected", "opened"} -> CSet(c, CIssue(c, CState(c))) /\ UNCHANGED backlog
+       [] cl[c] = "wait" /\ pend[c] = "g" /\ dead[c] ->          \* the server closed the connection without an answer
+            CSet(c, CIssue(c, [CState(c) EXCEPT !.o = Append(@, <<"x", 0>>)])) /\ UNCHANGED backlog
        [] cl[c] = "wait" /\ s2c[c] # <<>> ->
             \* the awaited response: close() reports nothing ("d"); "s": the rejection, then close() sends the stray EOS
             LET st == CState(c)
@@ -116,8 +127,9 @@ C(c) ==
                                   !.q = IF st.pend = "s" THEN Append(@, SE) ELSE @] IN
             CSet(c, CIssue(c, st1)) /\ UNCHANGED backlog
        [] OTHER -> FALSE
-  /\ UNCHANGED <<script, mx, loop, acc, closed, h, ml, cur, mid, hs, flag, permits, serving, sk, sa>>
-CEnabled(c) == cl[c] \in {"start", "connected", "opened"} \/ (cl[c] = "wait" /\ s2c[c] # <<>>)
+  /\ UNCHANGED <<script, mx, loop, acc, closed, dead, h, ml, cur, mid, hs, flag, permits, serving, sk, sa>>
+CEnabled(c) == \/ (cl[c] = "start" /\ loop # "start") \/ cl[c] \in {"connected", "opened"} \/ (cl[c] = "wait" /\ s2c[c] # <<>>)
+               \/ (cl[c] = "wait" /\ pend[c] = "g" /\ dead[c])
 
 \* ------------------------------------------------------------------------------ per-connection server thread
 \* RpcServer.serve: consume what the client has written until a method body is entered, nothing is left (park in recv)
@@ -134,14 +146,15 @@ HRun(c, st) ==
               LET op == script[c][x.i]  f == IF Enters(op) THEN FALSE ELSE st.fl IN      \* serve_one entry clears the mark
               IF NM(op) = 0 THEN HRun(c, [st EXCEPT !.q = Tail(@), !.fl = f, !.r = Append(@, <<"c", 0>>)])
               ELSE [st EXCEPT !.q = Tail(@), !.fl = f, !.pc = "m", !.ml = NM(op), !.cur = x.i]
+         [] x.t = "G" -> [st EXCEPT !.q = Tail(@), !.pc = "fin", !.end = TRUE, !.dead = TRUE]   \* serve() raises
          [] x.t = "SP" -> HRun(c, [st EXCEPT !.q = Tail(@), !.hs = st.fl, !.fl = FALSE, !.mid = TRUE])
          [] OTHER -> HRun(c, [st EXCEPT !.q = Tail(@), !.fl = FALSE, !.r = IF st.fl THEN @ ELSE Append(@, <<"e", 0>>)])
 HState(c) == [q |-> c2s[c], r |-> s2c[c], mid |-> mid[c], hs |-> hs[c], fl |-> flag[Slot(c)], pc |-> h[c], ml |-> ml[c],
-              cur |-> cur[c], end |-> FALSE]
+              cur |-> cur[c], end |-> FALSE, dead |-> dead[c]]
 HSet(c, st, sv, pm) ==
   /\ c2s' = [c2s EXCEPT ![c] = st.q] /\ s2c' = [s2c EXCEPT ![c] = st.r] /\ mid' = [mid EXCEPT ![c] = st.mid]
   /\ hs' = [hs EXCEPT ![c] = st.hs] /\ flag' = [flag EXCEPT ![Slot(c)] = st.fl] /\ h' = [h EXCEPT ![c] = st.pc]
-  /\ ml' = [ml EXCEPT ![c] = st.ml] /\ cur' = [cur EXCEPT ![c] = st.cur]
+  /\ ml' = [ml EXCEPT ![c] = st.ml] /\ cur' = [cur EXCEPT ![c] = st.cur] /\ dead' = [dead EXCEPT ![c] = st.dead]
   \* EOF: transport.close(); semaphore.release(); next: the state lock
   /\ serving' = IF st.end THEN sv \ {c} ELSE sv
   /\ permits' = IF st.end /\ mx > 0 THEN pm + 1 ELSE pm
@@ -155,7 +168,7 @@ Result(c) ==          \* what the method / process() call that now returns hands
 H(c) ==
   /\ c \in Conns
   /\ CASE h[c] = "start" /\ mx > 0 ->
-            h' = [h EXCEPT ![c] = "sem"] /\ UNCHANGED <<c2s, s2c, ml, cur, mid, hs, flag, permits, serving, sk, sa>>
+            h' = [h EXCEPT ![c] = "sem"] /\ UNCHANGED <<c2s, s2c, dead, ml, cur, mid, hs, flag, permits, serving, sk, sa>>
        [] (h[c] = "start" /\ mx = 0) \/ (h[c] = "sem" /\ permits > 0) ->
             /\ HSet(c, HRun(c, HState(c)), serving \cup {c}, IF mx > 0 THEN permits - 1 ELSE permits)
             /\ UNCHANGED <<sk, sa>>
@@ -165,7 +178,7 @@ H(c) ==
             /\ ml' = [ml EXCEPT ![c] = @ - 1]
             /\ sk' = IF Op(c) = "pt" THEN [sk EXCEPT ![Slot(c)] = 0] ELSE sk
             /\ sa' = IF Op(c) = "xe" THEN [sa EXCEPT ![Slot(c)] = 0] ELSE sa
-            /\ UNCHANGED <<h, c2s, s2c, cur, mid, hs, flag, permits, serving>>
+            /\ UNCHANGED <<h, c2s, s2c, dead, cur, mid, hs, flag, permits, serving>>
        [] h[c] = "m" /\ ml[c] = 1 ->
             \* the call returns (or init raises: error stream, and the connection's stray mark is set): response written,
             \* back to reading
@@ -173,7 +186,7 @@ H(c) ==
                                         !.fl = IF Rejected(Op(c)) THEN TRUE ELSE @] IN
             /\ HSet(c, HRun(c, st), serving, permits)
             /\ sk' = Result(c).k /\ sa' = Result(c).a
-       [] h[c] = "fin" -> h' = [h EXCEPT ![c] = "done"] /\ UNCHANGED <<c2s, s2c, ml, cur, mid, hs, flag, permits, serving, sk, sa>>
+       [] h[c] = "fin" -> h' = [h EXCEPT ![c] = "done"] /\ UNCHANGED <<c2s, s2c, dead, ml, cur, mid, hs, flag, permits, serving, sk, sa>>
        [] OTHER -> FALSE
   /\ UNCHANGED <<script, mx, loop, acc, backlog, closed, cl, ip, pend, eof, obs>>
 HEnabled(c) == \/ h[c] \in {"start", "m", "fin"} \/ (h[c] = "sem" /\ permits > 0)
@@ -182,7 +195,7 @@ HEnabled(c) == \/ h[c] \in {"start", "m", "fin"} \/ (h[c] = "sem" /\ permits > 0
 \* the harness closes the listening socket once every connection has been served to its end
 AllDone == \A c \in Conns : cl[c] = "done" /\ h[c] = "done"
 CloseListener == /\ ~closed /\ AllDone /\ loop = "accept" /\ closed' = TRUE
-                 /\ UNCHANGED <<script, mx, loop, acc, backlog, cl, ip, pend, c2s, s2c, eof, h, ml, cur, mid, hs, flag, permits,
+                 /\ UNCHANGED <<script, mx, loop, acc, backlog, cl, ip, pend, c2s, s2c, eof, dead, h, ml, cur, mid, hs, flag, permits,
                                 serving, sk, sa, obs>>
 
 \* (quantified over a constant range so that TLC labels every step with its thread; C / H check c \in Conns themselves)
@@ -196,6 +209,7 @@ SoloFrom(s, c, i, k, a) ==
   IF i > Len(s) THEN <<>>
   ELSE LET op == s[i]  rej == i > 1 /\ Rejected(s[i - 1]) IN
        CASE op = "u" -> <<<<"r", Tag(c) * 1000 + (i - 1)>>>> \o SoloFrom(s, c, i + 1, k, a)
+         [] op = "g" -> <<<<"x", 0>>>> \o SoloFrom(s, c, i + 1, k, a)
          [] Rejected(op) -> SoloFrom(s, c, i + 1, k, a)                       \* nothing is read when the stream is opened
          [] rej /\ op \in {"t", "e"} -> <<<<"e", Tag(c)>>>> \o SoloFrom(s, c, i + 1, k, a)
          [] op = "pt" -> <<<<"d", Tag(c) * 1000 + 1>>>> \o SoloFrom(s, c, i + 1, 1, a)
